@@ -7,7 +7,7 @@ property named in meta.json ("property" or "properties"), undoes the patch strai
 (git checkout -- . ; untracked files created by the patch are removed), and records the outcome in
 seeded/<id>/result.json.  Nothing is ever committed to /repo."""
 import json, os, subprocess, sys, time
-V = "/verif"; R = "/repo"
+V = os.path.dirname(os.path.dirname(os.path.abspath(__file__))); R = "/repo"
 
 def sh(cmd, cwd=None, timeout=None):
     p = subprocess.run(cmd, cwd=cwd, stdout=subprocess.PIPE, stderr=subprocess.STDOUT, text=True, timeout=timeout)
@@ -17,6 +17,22 @@ def clean():
     return sh(["git", "status", "--porcelain"], cwd=R)[1].strip() == ""
 
 def main():
+    global R
+    scratch = None
+    if "--scratch" in sys.argv:
+        # run against a scratch worktree of /repo's HEAD instead of /repo itself (e.g. while a background sweep uses /repo)
+        import tempfile
+        scratch = tempfile.mkdtemp(prefix="seedrun-", dir="/tmp"); os.rmdir(scratch)
+        assert sh(["git", "worktree", "add", "-q", "--detach", scratch, "HEAD"], cwd="/repo")[0] == 0
+        R = scratch
+        os.environ["VERIF_REPO"] = scratch
+    try:
+        return main2()
+    finally:
+        if scratch:
+            sh(["git", "worktree", "remove", "--force", scratch], cwd="/repo")
+
+def main2():
     args = [a for a in sys.argv[1:] if not a.startswith("--")]
     tier = "quick"
     if "--tier" in sys.argv:
